@@ -1,4 +1,6 @@
-/-! Spike: regex derivatives + bisimulation certificate checker -/
+/-! Regular expressions over a finite class alphabet: Brzozowski derivatives with ACI-normalising
+smart constructors, an executable matcher, and a bisimulation-certificate checker (soundness in
+`PkgProofs/Lemmas/RxSound.lean`). -/
 namespace Rx
 
 inductive R where
@@ -48,15 +50,29 @@ def cmp : R → R → Ordering
   | _, .alt _ _ => .gt
   | .star a, .star b => cmp a b
 
+/-- Bool-valued structural equality (cheap to evaluate in the kernel) -/
+def beq : R → R → Bool
+  | .empty, .empty => true
+  | .eps, .eps => true
+  | .cls m, .cls n => m == n
+  | .cat a b, .cat c d => beq a c && beq b d
+  | .alt a b, .alt c d => beq a c && beq b d
+  | .star a, .star b => beq a b
+  | _, _ => false
+
+def isLt : Ordering → Bool
+  | .lt => true
+  | _ => false
+
 /-- insert non-alt `a` into sorted right-nested alt list `b` -/
 def insAlt (a : R) : R → R
   | .alt b c =>
-    if a = b then .alt b c
-    else if cmp a b == .lt then .alt a (.alt b c)
+    if beq a b then .alt b c
+    else if isLt (cmp a b) then .alt a (.alt b c)
     else .alt b (insAlt a c)
   | b =>
-    if a = b then b
-    else if cmp a b == .lt then .alt a b
+    if beq a b then b
+    else if isLt (cmp a b) then .alt a b
     else .alt b a
 
 def mkAlt : R → R → R
@@ -95,24 +111,70 @@ def plus (a : R) : R := .cat a (.star a)
 /-- certificate check -/
 def memPair (p : R × R) : List (R × R) → Bool
   | [] => false
-  | q :: qs => (p.1 == q.1 && p.2 == q.2) || memPair p qs
+  | q :: qs => (beq p.1 q.1 && beq p.2 q.2) || memPair p qs
 
 def closedAt (n : Nat) (cert : List (R × R)) (p : R × R) : Bool :=
-  nullable p.1 == nullable p.2 &&
+  (nullable p.1 == nullable p.2) &&
   (List.range n).all fun c => memPair (deriv c p.1, deriv c p.2) cert
 
 def isBisim (n : Nat) (cert : List (R × R)) : Bool :=
   cert.all (closedAt n cert)
 
-/-- unverified search for the certificate -/
-partial def search (n : Nat) (todo : List (R × R)) (seen : List (R × R)) : Option (List (R × R)) :=
-  match todo with
-  | [] => some seen
-  | p :: rest =>
-    if memPair p seen then search n rest seen
-    else if nullable p.1 != nullable p.2 then none
+/-- fuel-bounded, kernel-evaluable search for a candidate bisimulation -/
+def searchF (n : Nat) : Nat → List (R × R) → List (R × R) → Option (List (R × R))
+  | 0, _, _ => none
+  | fuel+1, todo, seen =>
+    match todo with
+    | [] => some seen
+    | p :: rest =>
+      if memPair p seen then searchF n fuel rest seen
+      else if nullable p.1 != nullable p.2 then none
+      else
+        let nexts := (List.range n).map fun c => (deriv c p.1, deriv c p.2)
+        searchF n fuel (nexts ++ rest) (p :: seen)
+
+/-- `true` only if a bisimulation containing `(a, b)` was found *and re-checked* -/
+def equiv (n fuel : Nat) (a b : R) : Bool :=
+  match searchF n fuel [(a, b)] [] with
+  | some cert => memPair (a, b) cert && isBisim n cert
+  | none => false
+
+/-- executable matcher on class words -/
+def matchB (r : R) : List Nat → Bool
+  | [] => nullable r
+  | c :: cs => matchB (deriv c r) cs
+
+/-- class of a code point from a sorted range table `(lo, hi, class)`; `none` if the table has a gap -/
+def classOf (ranges : List (Nat × Nat × Nat)) (cp : Nat) : Option Nat :=
+  match ranges with
+  | [] => none
+  | (lo, hi, c) :: rest => if lo ≤ cp && cp ≤ hi then some c else classOf rest cp
+
+def classify (ranges : List (Nat × Nat × Nat)) (s : List Nat) : Option (List Nat) :=
+  s.mapM (classOf ranges)
+
+/-- acceptance of a code-point string by a regex over a class table -/
+def accepts (ranges : List (Nat × Nat × Nat)) (r : R) (s : List Nat) : Bool :=
+  match classify ranges s with
+  | some w => matchB r w
+  | none => false
+
+/-- the table tiles `[0, 0x10FFFF]` with classes `< n` -/
+def tiles (n : Nat) : Nat → List (Nat × Nat × Nat) → Bool
+  | next, [] => next == 0x110000
+  | next, (lo, hi, c) :: rest => lo == next && lo ≤ hi && c < n && tiles n (hi + 1) rest
+
+/-- BFS for a shortest class word on which two regexes differ (search aid only; its answer is replayed) -/
+def distinguishF (n : Nat) : Nat → List (R × R × List Nat) → List (R × R) → Option (List Nat)
+  | 0, _, _ => none
+  | _, [], _ => none
+  | fuel+1, (x, y, path) :: rest, seen =>
+    if nullable x != nullable y then some path.reverse
+    else if memPair (x, y) seen then distinguishF n fuel rest seen
     else
-      let nexts := (List.range n).map fun c => (deriv c p.1, deriv c p.2)
-      search n (nexts ++ rest) (p :: seen)
+      let nexts := (List.range n).map fun c => (deriv c x, deriv c y, c :: path)
+      distinguishF n fuel (rest ++ nexts) ((x, y) :: seen)
+
+def distinguish (n : Nat) (a b : R) : Option (List Nat) := distinguishF n 200000 [(a, b, [])] []
 
 end Rx
